@@ -32,10 +32,14 @@ def model_check(chk, quick, parts=("main", "refine", "witness", "extra"), small=
     r = vlib.tlc(T / "MCTracker.tla", cfg, "refine", chk.workdir, workers=8, timeout=600)
     vlib.tlc_must_pass(r, "Tracker => AbstractTracker")
     chk.add_tlc("refinement Tracker => AbstractTracker (MaxIdle=0)", r)
-    for w in (("W_NoExpiredUncollected", "W_NoCollected", "W_NoLongTrack", "W_NoOut") if "witness" in parts else ()):
+    ws = ("W_NoExpiredUncollected", "W_NoCollected", "W_NoLongTrack", "W_NoOut") if "witness" in parts else ()
+    def _w(w):
         cfg = vlib.write_cfg(chk.workdir / f"{w}.cfg", mc_consts(), invariants=[w], constraints=["Bound"])
-        rw = vlib.tlc(T / "MCTracker.tla", cfg, w, chk.workdir, workers=4, timeout=200)
-        chk.witness(w, vlib.expect_violation(rw, w))
+        return w, vlib.tlc(T / "MCTracker.tla", cfg, w, chk.workdir, workers=2, timeout=300)
+    import concurrent.futures as cf
+    with cf.ThreadPoolExecutor(max_workers=4) as ex:
+        for w, rw in ex.map(_w, ws):
+            chk.witness(w, vlib.expect_violation(rw, w))
     if not quick and "extra" in parts:
         cfg = vlib.write_cfg(chk.workdir / "mc-commute.cfg", mc_consts(MaxTracks=2, MaxEpoch=2), invariants=["Commute"],
                              constraints=["Bound"])
